@@ -246,6 +246,9 @@ func reproduced(v Violation, r NativeResult) bool {
 		return r.Kind == "timeout" || r.Kind == "panic"
 	case "alloc":
 		return r.Kind == "panic" || r.Kind == "timeout" || r.Kind == "missing"
+	case "sharedwrite", "foreignwrite":
+		// a property of the path itself: confirmed when the path is natively feasible
+		return r.Kind == "ok"
 	default:
 		return r.Kind == "panic"
 	}
@@ -304,6 +307,16 @@ func runProperty(prop, tier, repo, verif string, opts RunOpts, workers int, noRe
 			inconclusive = append(inconclusive, r.Name+": solver: "+m)
 		}
 		hasUnwind := false
+		if prop == "C20" {
+			for _, sw := range r.SharedWrites {
+				// frame condition of C20: no operation stores to package-level state
+				var wi []InputVal
+				if len(r.Witnesses) > 0 {
+					wi = r.Witnesses[0].Inputs
+				}
+				r.Violations = append(r.Violations, Violation{Kind: "sharedwrite", Site: sw, Func: r.Name, Msg: sw, Inputs: wi, Harness: r.Name})
+			}
+		}
 		for _, v := range r.Violations {
 			pending = append(pending, pend{v, r.Pkg})
 			if v.Kind == "unwind" {
